@@ -193,10 +193,10 @@ def _all_modes(chk):
             for g in gs
         ):
             ps = ff.paths(r.value, spine_only=True)
-            ok = any(
-                p.atom.kind == "param" and [o.name for o in p.ops if o.kind in ("attr", "arg")] == ["shape", "min"]
-                for p in ps
-            )
+            ok = bool(ps) and all(
+                p.atom.kind == "param" and [(o.kind, o.name) for o in p.ops] == [("attr", "shape"), ("arg", "min")]
+                for p in ps if p.atom.kind != "call"
+            ) and any(p.atom.kind == "param" for p in ps)
             chk.check(ok, "SPECIAL.all_modes", fn, r, why="n_modes='all' must resolve to min(X.shape), the rank of the data")
             return
     raise AnalysisError("PCA._get_n_modes: branch for n_modes == 'all' not found (anchor vanished)")
